@@ -199,6 +199,15 @@ type prover struct {
 	used           []string
 	grew           bool
 	rewriterIface  *types.Interface
+	fieldLens      map[string]*fieldLenFacts
+	fieldLensBusy  bool
+	loadCache      map[*ssa.Function][]fieldLoad
+	lenRetCache    map[retKey][]lenRetFact
+	storeSets      map[string]map[*ssa.Function]bool
+	changerCache   map[string][]ssa.Instruction
+	structInvOK    map[string]bool
+	sents          map[sentKey]*ssa.Const
+	sentOf         map[ssa.Value]sentKey
 	callIdx        map[*ssa.Function][]ssa.CallInstruction
 	asValue        map[*ssa.Function]bool
 	taint          bool // something was derived without facts that will be available later: do not cache
@@ -206,7 +215,7 @@ type prover struct {
 
 func newProver(c *Ctx) *prover {
 	p := &prover{c: c, callers: map[*ssa.Function][]ssa.CallInstruction{}, fixedLen: map[string]int64{}, twoLen: map[string]int64{},
-		invCache: map[*ssa.Function]invEntry{}, inProgress: map[*ssa.Function]bool{}, retCache: map[retKey]retEntry{}, axiomsUsed: map[string]bool{}, preCache: map[*ssa.Function]preEntry{}, preBusy: map[*ssa.Function]bool{}, retBusy: map[retKey]bool{}}
+		invCache: map[*ssa.Function]invEntry{}, inProgress: map[*ssa.Function]bool{}, retCache: map[retKey]retEntry{}, axiomsUsed: map[string]bool{}, preCache: map[*ssa.Function]preEntry{}, preBusy: map[*ssa.Function]bool{}, retBusy: map[retKey]bool{}, loadCache: map[*ssa.Function][]fieldLoad{}, lenRetCache: map[retKey][]lenRetFact{}, storeSets: map[string]map[*ssa.Function]bool{}, changerCache: map[string][]ssa.Instruction{}, structInvOK: map[string]bool{}, sents: map[sentKey]*ssa.Const{}, sentOf: map[ssa.Value]sentKey{}}
 	p.scanTables()
 	p.scanStable()
 	reps := map[string]ssa.Value{}
@@ -586,6 +595,11 @@ func (p *prover) defs(s *factSet, t term, seen map[term]bool, depth int) {
 	}
 	seen[t] = true
 	v := t.v
+	if v == ssa.Value(symNF) || v == ssa.Value(symMF) {
+		p.schemaBase(s)
+		return
+	}
+	p.schemaFacts(s, t)
 	if t.isLn {
 		s.le(zeroT(), t, 0) // len >= 0
 		switch x := v.(type) {
@@ -599,22 +613,30 @@ func (p *prover) defs(s *factSet, t term, seen map[term]bool, depth int) {
 				// slicing an array: its length is a constant
 				s.eq(base, zeroT(), arr)
 			}
-			switch {
-			case x.High == nil && loC:
-				s.eq(t, base, -lo) // len(x) = len(y) - lo
-				p.defs(s, base, seen, depth+1)
-			case x.High != nil && loC:
+			// len(x) = hi - lo exactly, hi = High or len(base), lo = Low or 0
+			_ = lo
+			_ = loC
+			l := newLin(0)
+			l.addF(t, 1)
+			m := newLin(0)
+			m.addF(t, -1)
+			if x.High != nil {
 				h := valT(x.High)
-				s.eq(t, h, -lo) // len(x) = hi - lo
+				l.addF(h, -1)
+				m.addF(h, 1)
 				p.defs(s, h, seen, depth+1)
-			case x.High == nil && !loC:
-				s.le(t, base, 0)
-				p.defs(s, base, seen, depth+1)
-			default:
-				h := valT(x.High)
-				s.le(t, h, 0)
-				p.defs(s, h, seen, depth+1)
+			} else {
+				l.addF(base, -1)
+				m.addF(base, 1)
 			}
+			if x.Low != nil {
+				lw := valT(x.Low)
+				l.addF(lw, 1)
+				m.addF(lw, -1)
+				p.defs(s, lw, seen, depth+1)
+			}
+			s.fs = append(s.fs, l, m)
+			p.defs(s, base, seen, depth+1)
 		case *ssa.MakeSlice:
 			l := valT(x.Len)
 			s.eq(t, l, 0)
@@ -982,6 +1004,9 @@ func (p *prover) collectMulti(fn *ssa.Function, at ssa.Instruction, goalTerms []
 		}
 		sort.Slice(ts, func(i, j int) bool { return termKey(ts[i]) < termKey(ts[j]) })
 		for _, t := range ts {
+			if t.isLn && t.v != nil {
+				p.lenSummaryFacts(s, t, seen)
+			}
 			if t.isLn || t.v == nil {
 				continue
 			}
@@ -1167,7 +1192,7 @@ func (p *prover) prove(fn *ssa.Function, at ssa.Instruction, a, b term, c int64,
 			p.depth++
 			okAll := true
 			for _, site := range sites {
-				na, nb, ok2 := substParam(fn, site, a), substParam(fn, site, b), true
+				na, nb, ok2 := p.substParam(fn, site, a), p.substParam(fn, site, b), true
 				if (a.v != nil && na.v == nil) || (b.v != nil && nb.v == nil) {
 					ok2 = false
 				}
@@ -1625,6 +1650,25 @@ func (p *prover) preconds(fn *ssa.Function) []fact {
 			}
 		}
 	}
+	for i := range f6StructInvs {
+		si := &f6StructInvs[i]
+		if !p.structInvOK[si.typ] {
+			continue
+		}
+		for _, b := range invBases(fn, si) {
+			for _, x := range fn.Params {
+				if !isIntType(x.Type()) {
+					continue
+				}
+				for _, sf := range si.slices {
+					cands = append(cands, fact{valT(x), p.sentinel(fn, b, sf, true), 0})
+				}
+				for _, f := range si.ints {
+					cands = append(cands, fact{p.sentinel(fn, b, f, false), valT(x), 0})
+				}
+			}
+		}
+	}
 	var out []fact
 	p.depth++
 	for _, cd := range cands {
@@ -1634,7 +1678,7 @@ func (p *prover) preconds(fn *ssa.Function) []fact {
 				okAll = false
 				break
 			}
-			na, nb := substParam(fn, site, cd.a), substParam(fn, site, cd.b)
+			na, nb := p.substParam(fn, site, cd.a), p.substParam(fn, site, cd.b)
 			if (cd.a.v != nil && na.v == nil) || (cd.b.v != nil && nb.v == nil) || !p.prove(site.Parent(), site, na, nb, cd.c, nil) {
 				okAll = false
 				break
@@ -1928,6 +1972,10 @@ func (p *prover) goalOverParams(fn *ssa.Function, ts ...term) bool {
 			any = true
 			continue
 		}
+		if k, ok := p.sentOf[t.v]; ok && k.fn == fn {
+			any = true
+			continue
+		}
 		if _, ok := t.v.(*ssa.Const); ok {
 			continue
 		}
@@ -1936,9 +1984,19 @@ func (p *prover) goalOverParams(fn *ssa.Function, ts ...term) bool {
 	return any
 }
 
-func substParam(fn *ssa.Function, site ssa.CallInstruction, t term) term {
-	if t.v == nil {
+func (p *prover) substParam(fn *ssa.Function, site ssa.CallInstruction, t term) term {
+	if t.v == nil || t.v == ssa.Value(symNF) || t.v == ssa.Value(symMF) {
 		return t
+	}
+	if k, ok := p.sentOf[t.v]; ok {
+		if k.fn != fn {
+			return term{}
+		}
+		r, ok := p.sentinelAtSite(fn, site, k)
+		if !ok {
+			return term{}
+		}
+		return r
 	}
 	prm, ok := t.v.(*ssa.Parameter)
 	if !ok {
@@ -2068,6 +2126,15 @@ func (p *prover) proveOblig(fn *ssa.Function, o idxOblig) (bool, string) {
 func termStr(t term) string {
 	if t.v == nil {
 		return "0"
+	}
+	if t.v == ssa.Value(symNF) {
+		return "NF"
+	}
+	if t.v == ssa.Value(symMF) {
+		return "MF"
+	}
+	if n, ok := termNames[t.v]; ok {
+		return n
 	}
 	n := t.v.Name() + "=" + t.v.String()
 	if len(n) > 60 {
